@@ -50,6 +50,7 @@ func vAudienceOK(v interface{}, allowed func(string) bool) bool {
 	return false
 }
 
+// audience verification equals the documented rule for every JSON shape of the configured audience claims and never crashes
 // verif: unwind=6 strlen=8 also=C04,C19,C01
 func vh_C14_aud() {
 	clientID := ndString("client-id")
